@@ -102,6 +102,13 @@ class TwinBuffer:
         if _isinstance(length, SymInt):
             v = z3.simplify(length.e)
             length = v.as_long() if z3.is_int_value(v) else length
+        if sx.UNIQUE_VIEWS:
+            if _isinstance(start, SymInt):
+                u = sx.unique_value(start)
+                start = start if u is None else u
+            if _isinstance(length, SymInt):
+                u = sx.unique_value(length)
+                length = length if u is None else u
         if _isinstance(start, _int) and _isinstance(length, _int) and length <= 70000:
             cells = self._cells
             return SymBytes.from_items([cells[start + k] if (start + k) in cells else sx._norm_item(z3.simplify(self._base(z3.IntVal(start + k)))) for k in range(length)])
@@ -211,6 +218,8 @@ class TwinBuffer:
     def pull_bytes(self, length):
         if not _is_intlike(length):
             raise TypeError("an integer is required")
+        if sx.CONCRETE_PULLS and _isinstance(length, SymInt) and sx.CONCRETE_PULLS(length.e):
+            length = sx.concretize(length)  # one path per feasible length keeps later offsets concrete
         self._need_read(length)
         r = self._view(self._pos, length)
         self._pos = self._pos + length
